@@ -4,7 +4,7 @@
    (iteration = what Get returns, key by key, in key order). *)
 From Verif Require Import Bytes BytesProofs Keys C20Proofs Consts Spec Lsm LsmProofs Compact CompactProofs EntOrderProofs Iter.
 From Verif Require Import IterOrderProofs.
-From Verif Require GetProofs MergeProofs.
+From Verif Require GetProofs MergeProofs SysProofs.
 From Coq Require Import ZifyN ZifyNat ZifyBool Sorting.Sorted.
 Open Scope N_scope.
 
@@ -372,6 +372,55 @@ Section IterateCorollaries.
     rewrite E. destruct seek; reflexivity.
   Qed.
 End IterateCorollaries.
+
+(* ---------- soundness of every iteration, whatever the options and the seek key ---------- *)
+Lemma skip_common_false_iff o rts banned e :
+  skip_common o rts banned e = false <->
+  (io_internal o = true \/ is_internal e = false) /\ e_ver e <= rts /\
+  (io_since o = 0 \/ io_since o < e_ver e) /\ (is_internal e = true \/ banned (e_key e) = false).
+Proof.
+  unfold skip_common. rewrite !orb_false_iff, !andb_false_iff, !negb_false_iff.
+  rewrite N.ltb_ge, N.ltb_ge, N.leb_gt. split.
+  - intros [[[A B] C] D]. split; [exact A|]. split; [exact B|]. split; [|exact D]. destruct C; [left|right]; lia.
+  - intros (A & B & C & D). split; [|exact D]. split; [split; [exact A|exact B]|]. destruct C; [left|right]; lia.
+Qed.
+
+Theorem iterate_sound o rts now banned m seek e :
+  ssorted m -> In e (iterate o rts now banned m seek) ->
+  In e m /\ skip_common o rts banned e = false /\ item_valid o e = true /\
+  (io_all o = false -> deleted_or_expired e now = false).
+Proof.
+  intros Hs Hin. unfold iterate in Hin.
+  assert (G: forall t, (forall x, In x t -> In x m) -> emit o rts now banned t e = true -> In e t ->
+             In e m /\ skip_common o rts banned e = false /\ (io_all o = false -> deleted_or_expired e now = false)).
+  { intros t Ht E He. split; [auto|]. split; [eapply emit_true_not_skip; eauto|].
+    intros Ha. now apply (emit_nonall_inv o rts now banned t e Ha E). }
+  destruct (io_reverse o) eqn:Hr; cbv zeta in Hin; apply SysProofs.take_valid_sound in Hin; destruct Hin as [Hin V].
+  - set (key := match seek with [] => io_prefix o | _ => seek end) in *.
+    pose proof (ssorted_rev_dsorted m Hs) as Hd.
+    match type of Hin with context [rev_items _ _ _ _ ?X None] => assert (exists f, X = filter f (rev m)) as [f Hf] end.
+    { destruct key; [exists (fun _ => true); symmetry; now apply filter_all|eexists; now apply seek_le_rev_filter]. }
+    rewrite Hf in Hin. rewrite rev_items_spec_d in Hin by (eapply StronglySorted_subseq; [apply subseq_filter|exact Hd]).
+    apply filter_In in Hin. destruct Hin as [He E].
+    destruct (G (filter f (rev m))) as (A & B & C); auto.
+    intros x Hx. apply filter_In in Hx. apply in_rev. tauto.
+  - set (key := match seek with [] => io_prefix o | _ => seek end) in *.
+    match type of Hin with context [fwd_items _ _ _ _ ?X None] => assert (exists f, X = filter f m) as [f Hf] end.
+    { destruct key; [exists (fun _ => true); symmetry; now apply filter_all|eexists; now apply seek_ge_filter]. }
+    rewrite Hf in Hin. rewrite fwd_items_spec in Hin by (eapply ssorted_subseq; [apply subseq_filter|exact Hs]).
+    unfold spec_scan in Hin. apply filter_In in Hin. destruct Hin as [He E].
+    apply take_while_in in He.
+    destruct (G (filter f m)) as (A & B & C); auto.
+    intros x Hx. apply filter_In in Hx. tauto.
+Qed.
+
+Theorem iterate_reverse_keys_decreasing o rts now banned m :
+  io_reverse o = false -> io_all o = false -> io_prefix o = [] -> io_prefix_is_key o = false -> ssorted m ->
+  StronglySorted (fun a b => klt b a) (map e_key (iterate (set_reverse true o) rts now banned m [])).
+Proof.
+  intros Hr Ha Hp Hk Hs. rewrite iterate_reverse_is_rev by assumption. rewrite map_rev.
+  apply StronglySorted_rev. rewrite iterate_plain by assumption. now apply fwd_items_keys_increasing.
+Qed.
 
 (* ---------- what does NOT hold: Seek(k) with k below the Prefix ----------
    The forward loop stops at the first entry outside the Prefix (prefetch / Next:
